@@ -32,7 +32,7 @@ THEOREMS = ['PV.C10.' + t for t in [
 TRUSTED = [
   'bitstruct-typed signals (L3 of the type checker: struct <-> BitsN and struct <-> struct assignment, field access) and lists of '
   'Bits constants are NOT in the Lean model: harness/checks/c10_struct.py drives them through the real Gen + TypeCheck passes and '
-  'DefaultPassGroup simulation and judges them with the model-independent oracle only (streams struct, N6, lutctl, intlut)',
+  'DefaultPassGroup simulation and judges them with the model-independent oracle only (streams struct, N6, lutctl, intlut, N7, N8, N9)',
   'Model/TC.lean follows BehavioralRTLIRTypeCheckL1/L2Pass (visitor + enforcer), RTLIRDataType._get_nbits_from_value / get_index_width; '
   'Model/PyEval.lean composes the PythonBits model of C04/C05 (Model/Bits.lean) with Python int arithmetic',
   'a signal read is modelled as Bits(w, value mod 2**w): the mask is the identity on reachable states',
@@ -59,7 +59,11 @@ RULE = ('streams: typed (type-directed terms, no injected defects), multi (2-3 i
 # in /repo: their former witness streams ('F4', 'N2', 'N3', 'N5') are ordinary cases now (no finding label)
 FINDING_OF_ISSUE = [('implArith', 'F12-implicit-arith'), ('tmpFlip', 'N1-tmpvar-explicit-flip'),
                     ('softArith', 'N4-soft-int-arith')]
-FINDING_OF_STREAM = {'F12': 'F12-implicit-arith', 'N1': 'N1-tmpvar-explicit-flip', 'N4': 'N4-soft-int-arith'}
+FINDING_OF_STREAM = {'F12': 'F12-implicit-arith', 'N1': 'N1-tmpvar-explicit-flip', 'N4': 'N4-soft-int-arith',
+                     'N7': 'N7-heterogeneous-interface-list', 'N8': 'N8-heterogeneous-component-list'}
+# N9 (`Pt( 300, 1 )` with x: Bits8 accepted by visit_StructInst): set to True once the repair is in /repo; the stream
+# 'N9' then runs as a regression stream (its blocks must be rejected; a failure is labelled regression-N9-...)
+N9_FIXED = False
 
 # ------------------------------------------------------------------ real side
 
@@ -379,7 +383,7 @@ def simulate(cls, case, vectors):
 
 REPAIRED_STREAMS = {'F4': 'regression-F4-implicit-rhs-too-wide', 'N2': 'regression-N2-ifexp-width',
                     'N3': 'regression-N3-explicit-const-fold', 'N5': 'regression-N5-ifexp-bool-branch',
-                    'N6': 'regression-N6-const-array-element-implicit'}
+                    'N6': 'regression-N6-const-array-element-implicit', 'N9': 'regression-N9-structinst-arg-too-wide'}
 
 def finding_sig(case, issues):
   if case['stream'] in FINDING_OF_STREAM: return FINDING_OF_STREAM[case['stream']]
@@ -869,6 +873,9 @@ def run(ck):
   check_intops(ck, 2000 if quick else 60000)
   process(ck, corpus(), nvec)
   process_src(ck, ST.corpus(), nvec)
+  canon = [ST.gen_hetero(rng, 900101, 'N7', True), ST.gen_hetero(rng, 900102, 'N8', True)]
+  if N9_FIXED: canon.append(ST.gen_structinst(rng, 900103, True))
+  process_src(ck, canon, nvec)
   uid = [1000]
   def batch(n, f):
     cs = []
@@ -897,6 +904,12 @@ def run(ck):
                            lambda u: ST.gen_intlut(rng, u))):
       for _ in range(n):
         uid[0] += 1; src_cases.append(f(uid[0]))
+    for which in ('N7', 'N8'):
+      for _ in range(2 if quick else 5):
+        uid[0] += 1; src_cases.append(ST.gen_hetero(rng, uid[0], which))
+    if N9_FIXED:
+      for _ in range(3 if quick else 8):
+        uid[0] += 1; src_cases.append(ST.gen_structinst(rng, uid[0]))
     process_src(ck, src_cases, nvec)
     for which in ('F4', 'F12', 'N1', 'N2', 'N3', 'N4', 'N5'):
       batch(6 if quick else 20, lambda u: G.gen_finding(rng, u, which))
